@@ -233,3 +233,17 @@ package postprocess
 //@   at call slices.Compact: assert {the.merged.scope.is.sorted.before.neighbouring.duplicates.are.removed} g_sorted && arr(arg0) == g_arr
 //@   ensures {an.unscoped.side.makes.the.merged.fetch.unscoped} len(left) == 0 || len(right) == 0 ==> len(result) == 0
 //@   modifies *
+
+// ----------------------------------------------------------------------------------------------
+// C14: the coordinates of the pre-fetch authorizer are collected from EVERY response position: the value of every
+// field of an object is visited, protected or not, list or not (a coordinate that is not collected gets no decision,
+// and the pre-fetch mode treats a coordinate without decision as allowed)
+//@ func collectAuthorizationCoordinates.collectNode
+//@   ghost var g_rec int = 0
+//@   at call collectAuthorizationCoordinates.collectNode: ghost g_rec = g_rec + 1
+//@   modifies *
+//@   safety none
+//@   loop 0:
+//@     invariant {the.value.of.every.field.is.visited} g_rec == phi0 + 1
+//@   loop 1:
+//@     invariant {the.value.of.every.field.is.visited} g_rec == loopphi(0, 0) + 1
